@@ -85,8 +85,8 @@ func checkCase(c *Case, count bool) error {
 		if !ok || want.Route < 0 {
 			continue
 		}
-		if strings.Contains(q.Path, "*") {
-			continue // keep clear of open finding E: which route serves is not what this property is about
+		if rt.ExcludedE(q.Path, pats) {
+			continue // open finding E: which route serves such a request is not what this property is about
 		}
 		spec, _ := r.Spec(q.Method, pats[want.Route])
 		if want.Tsr && (rt.EffectiveTS(c.G, spec) != rt.TSIgnore || q.Path == "/") {
